@@ -13,6 +13,11 @@ Engine E2 (small-scope enumeration) + E4-style baseline fault menu.
     dropped); the harness itself decides, with an independent strict parser, whether the damaged bytes still are a
     snapshot file (header line + body, or one JSON text, strict UTF-8).  Where they are not, every reader has to return
     the full payload exactly or report absence.
+(d) write-fault level (E4): the last write of a short history (baseline written again under an existing delta, delta
+    written / written again, fall-back full written / written again) runs on the mc.faults proxies and is disturbed once:
+    death before every numbered I/O call, every failable call failing, every raw write cut after EVERY byte count (then
+    death, or a device that is full from there on).  Every reader x every etag of the history afterwards, and again after
+    the same write was repeated undisturbed: the payload written under that etag or absence, never something else.
 """
 from __future__ import annotations
 
@@ -525,6 +530,295 @@ def _damage_worker(chunk, st: Stats, scratch_root, pay):
     shutil.rmtree(scratch, ignore_errors=True)
 
 
+# ---------------------------------------------------------------- write-fault level
+# (d) The WRITER runs under an I/O fault.  A history of writes is laid down undisturbed (the prefix); the next write of
+# the history is executed on the mc.faults proxies and disturbed at one point: the process dies before call i (every
+# numbered I/O call of the write), call i fails with an errno, a raw write is cut after n bytes and the process dies
+# (EVERY n), or a raw write takes n bytes and the next one fails with ENOSPC (a device that fills up; EVERY n).
+# Afterwards every reader is asked for every snapshot of the history: the payload that was written under that etag, or
+# absence.  Then the same write is repeated undisturbed (the retry after the failure / the restart after the crash) and
+# the readers are asked again.  Nothing here knows how the writer lays its bytes down.
+from mc import faults as _faults
+from clematis.io import atomic as _atomic_mod
+
+# op = ("w", etag_from, etag_to, payload role, delta_mode) | ("rm", etag, layout)
+WF_HISTORIES = {
+    # the baseline of an existing delta is written again (periodic full snapshot of an unchanged state, a re-run)
+    "rewrite-baseline": ([("w", None, "E1", "base", False), ("w", "E1", "E2", "cur", True)], ("w", None, "E1", "base", False)),
+    # a delta is written for the first time / once more
+    "write-delta": ([("w", None, "E1", "base", False)], ("w", "E1", "E2", "cur", True)),
+    "rewrite-delta": ([("w", None, "E1", "base", False), ("w", "E1", "E2", "cur", True)], ("w", "E1", "E2", "cur", True)),
+    # the baseline is gone: the delta-mode writer falls back to a full snapshot, which the readers of the delta fall back to
+    "write-fallback-full": ([("w", None, "E1", "base", False), ("w", "E1", "E2", "cur", True), ("rm", "E1", "full")],
+                            ("w", "E1", "E2", "cur", True)),
+    "rewrite-fallback-full": ([("w", None, "E1", "base", False), ("w", "E1", "E2", "cur", True), ("rm", "E1", "full"),
+                               ("w", "E1", "E2", "cur", True)], ("w", "E1", "E2", "cur", True)),
+}
+WF_ROLE_MTIME = {("E1", "full"): 1000, ("E2", "full"): 1500, ("E2", "delta"): 2000}
+WF_STRAY_MTIME = 3000   # whatever else lies in the directory is the newest thing there (it was made by the last write)
+WF_READERS = ["read_snapshot(root,etag)", "read_snapshot(path)", "load_latest_snapshot", "load_latest_snapshot[last-written-newest]"]
+WF_FULL_DEVICE_WRITES = 12   # how many further raw writes (per kind of write call) a full device refuses
+_WF_ENG = None
+
+
+def _wf_engine():
+    global _WF_ENG
+    if _WF_ENG is None:
+        e = _faults.FaultEngine()
+        e.install(_atomic_mod, require=False)                       # the atomic writer's os / tempfile / time / Path / open
+        e.install(snap, names=("os", "open"))                        # the snapshot module's own file-system calls
+        e.install(snap, names=("tempfile", "Path"), require=False)  # ... and these, where the module has them
+        _WF_ENG = e
+    return _WF_ENG
+
+
+def _wf_do(d, op, pay, paths):
+    if op[0] == "rm":
+        os.unlink(paths[(op[1], op[2])])
+        paths.pop((op[1], op[2]))
+        return None
+    _, efrom, eto, role, dm = op
+    p, wrote_delta = snap.write_snapshot_auto(d, etag_from=efrom, etag_to=eto, payload=copy.deepcopy(pay[role]), delta_mode=dm)
+    paths[(eto, "delta" if wrote_delta else "full")] = p
+    return p
+
+
+def _wf_settle(d, paths, newest=None):
+    """mtimes are an environment answer: fixed per role; `newest` = that path is the newest file of the directory"""
+    role = {}
+    for k, p in paths.items():
+        role[os.path.basename(p)] = WF_ROLE_MTIME[k]
+        role[os.path.basename(p) + ".meta"] = WF_ROLE_MTIME[k]
+    for n in os.listdir(d):
+        t = role.get(n, WF_STRAY_MTIME)
+        if newest is not None and n == os.path.basename(newest):
+            t = WF_STRAY_MTIME + 1
+        try:
+            os.utime(os.path.join(d, n), (t, t))
+        except OSError:
+            pass
+
+
+def _wf_tree(d):
+    out = {}
+    for n in sorted(os.listdir(d)):
+        p = os.path.join(d, n)
+        if os.path.isfile(p):
+            with open(p, "rb") as f:
+                out[n] = f.read()
+    return out
+
+
+def _wf_restore(d, tree):
+    shutil.rmtree(d, ignore_errors=True)
+    os.makedirs(d)
+    for n, b in tree.items():
+        with open(os.path.join(d, n), "wb") as f:
+            f.write(b)
+
+
+def _wf_read(d, reader, etag, paths, pay, refs, last_path):
+    """-> (outcome class, None | text).  Asked for `etag` (load_latest_snapshot: for whatever it finds)."""
+    if reader.startswith("load_latest_snapshot"):
+        _wf_settle(d, paths, newest=last_path if reader.endswith("[last-written-newest]") else None)
+        try:
+            info, got = _load_state_from(d)
+        except Exception:
+            return "absent:raises", None
+        if not info.get("loaded"):
+            return "absent:not-loaded", None
+        picked = os.path.basename(info.get("path") or "")
+        want = [refs[e] for (e, _l), p in sorted(paths.items()) if os.path.basename(p) == picked] or [refs["E1"], refs["E2"]]
+        if any(J(got) == J(w) for w in want):
+            return "exact", None
+        return "wrong", "load_latest_snapshot reports loaded=True (picked %s) with state %s; full-load state of what was written there is %s" % (
+            picked, J(got), " / ".join(J(w) for w in want))
+    try:
+        if reader == "read_snapshot(root,etag)":
+            got = snap.read_snapshot(d, etag)
+        else:
+            ps = [p for (e, _l), p in sorted(paths.items()) if e == etag and os.path.exists(p)]
+            if not ps:
+                return "absent:no-file", None
+            got = snap.read_snapshot(path=ps[0])   # "delta" sorts before "full": the delta where both exist
+    except Exception:
+        return "absent:raises", None
+    want = pay["base" if etag == "E1" else "cur"]
+    if J(got) == J(want):
+        return "exact", None
+    if got == {}:
+        return "absent:empty", None
+    return "wrong", "%s for %s returned %s, the payload written under that etag is %s" % (reader, etag, J(got), J(want))
+
+
+def _wf_plan_str(plan):
+    return "+".join("%s@%s%s" % (_faults.fault_tag(f), f["at"], (":n=%d" % f["n"]) if "n" in f else "") for f in plan if "at" in f) + (
+        "+device-full" if any("at" not in f for f in plan) else "") or "none"
+
+
+def _wf_plans(trace, errnos):
+    """every single-point disturbance of the write whose undisturbed call trace is `trace`"""
+    plans = [[]]
+    for ent in trace:
+        i = ent["i"]
+        plans.append([{"at": i, "kind": _faults.KILL_BEFORE}])
+        if ent["failable"]:
+            for e in errnos:
+                plans.append([{"at": i, "kind": _faults.FAIL, "errno": e}])
+            if ent["name"] == "fsync":
+                plans.append([{"at": i, "kind": _faults.FAIL_DROP, "errno": "EIO"}])
+        if ent["writer"]:
+            # the device is full from here on: every later raw write fails too (a buffered handle tries again when it is
+            # closed or collected)
+            full = [{"name": lab, "occ": sum(1 for t in trace[:i + 1] if t["name"] == lab) + k, "kind": _faults.FAIL, "errno": "ENOSPC"}
+                    for lab in sorted({t["name"] for t in trace if t["writer"]}) for k in range(1, WF_FULL_DEVICE_WRITES + 1)]
+            for n in range(1, ent["len"]):
+                plans.append([{"at": i, "kind": _faults.PARTIAL_KILL, "n": n}])
+                plans.append([{"at": i, "kind": _faults.SHORT, "n": n}] + full)
+    return plans
+
+
+def wfault_unit(scratch, base, cur, history, errnos, select, emit):
+    """Lay the prefix down once; for every plan (select(index, plan) -> bool) restore it, run the disturbed write, ask
+    the readers, repeat the write undisturbed, ask again.  emit(plan, op outcome, phase, reader, etag, outcome class, text|None, tree)
+    Returns the number of plans of the unit (or a list of set-up violations)."""
+    from mc.runner import HarnessError
+    eng = _wf_engine()
+    d = os.path.join(scratch, "c07w")
+    shutil.rmtree(d, ignore_errors=True)
+    os.makedirs(d)
+    pay = {"base": base, "cur": cur}
+    prefix, op = WF_HISTORIES[history]
+    try:
+        paths = {}
+        try:
+            for o in prefix:
+                _wf_do(d, o, pay, paths)
+        except Exception as e:
+            return [("file:writer-raises:%s" % type(e).__name__, "write_snapshot_auto raised %r with intact files (history %s)" % (e, history))]
+        _wf_settle(d, paths)
+        tree0 = _wf_tree(d)
+        paths0 = dict(paths)
+        refs = {"E1": _ref_state(scratch, "E1", base), "E2": _ref_state(scratch, "E2", cur)}
+        # the undisturbed write: its call trace is the space of disturbances, its result names the file it makes
+        eng.begin([], root=d)
+        try:
+            outcome, val = eng.run(_wf_do, d, op, pay, paths)
+            trace = list(eng.trace)
+        finally:
+            eng.end()
+        if outcome != "return":
+            return [("file:writer-raises:%s" % type(val).__name__, "write_snapshot_auto raised %r with intact files (history %s)" % (val, history))]
+        paths1, last_path = dict(paths), val
+        if not any(t["writer"] for t in trace):
+            emit(None, "no-write-boundary", None, None, None, None, None, None)
+        etags = sorted({e for (e, _l) in paths1})
+        plans = _wf_plans(trace, errnos)
+        for k, plan in enumerate(plans):
+            if not select(k, plan):
+                continue
+            _wf_restore(d, tree0)
+            cur_paths = dict(paths0)
+            eng.begin(plan, root=d)
+            try:
+                outcome, val = eng.run(_wf_do, d, op, pay, cur_paths)
+                fired = [f for _, f in eng.fired]
+                unfired = eng.unfired()
+            finally:
+                eng.end()
+            if plan and plan[0] not in fired:
+                raise HarnessError("nondeterministic write: planned fault %r never reached (history %s)" % (plan[0], history))
+            opo = {"return": "returned", "raise": "failed", "killed": "killed"}[outcome]
+            # what the readers may be asked for: everything the history names; the file of the disturbed write by its
+            # undisturbed name
+            known = dict(paths1) if outcome != "return" else dict(cur_paths)
+            for phase in ("after-fault", "after-retry"):
+                if phase == "after-retry":
+                    try:
+                        rp = dict(paths0)
+                        _wf_do(d, op, pay, rp)
+                        known = rp
+                    except Exception:
+                        emit(plan, opo, phase, "writer", "-", "retry:raises", None, None)
+                        break
+                tree = _wf_tree(d)
+                for reader in WF_READERS:
+                    for etag in (etags if reader.startswith("read_snapshot") else ["*"]):
+                        cls, text = _wf_read(d, reader, etag, known, pay, refs, last_path)
+                        emit(plan, opo, phase, reader, etag, cls, text, tree)
+                if not fired:
+                    break   # nothing happened: one phase
+        return len(plans)
+    finally:
+        shutil.rmtree(d, ignore_errors=True)
+
+
+def _wf_kind(plan):
+    return "+".join(_faults.fault_tag(f) for f in plan if "at" in f) + ("+device-full" if any("at" not in f for f in plan) else "") or "none"
+
+
+# histories in which the baseline of the delta is present when the readers are asked (absence is then no answer to an
+# undisturbed or successfully repeated write)
+WF_BASELINE_PRESENT = ("rewrite-baseline", "write-delta", "rewrite-delta")
+
+
+def _wf_judge(history, plan, opo, phase, reader, etag, cls, text):
+    """-> (sig, what) | None"""
+    if cls == "wrong":
+        return ("wfault:%s:write-%s:%s:wrong-reconstruction" % (history, opo, phase),
+                "history %s, write disturbed by %s (%s), readers asked %s: %s" % (history, _wf_plan_str(plan), opo, phase, text))
+    if cls.startswith("absent") and history in WF_BASELINE_PRESENT and reader.startswith("read_snapshot") and cls != "absent:no-file":
+        if not plan:
+            return ("wfault:%s:absent-with-baseline-present" % history,
+                    "history %s undisturbed: %s for %s answers %s with the baseline present" % (history, reader, etag, cls))
+        if phase == "after-retry":
+            return ("wfault:%s:absent-with-baseline-present" % history,
+                    "history %s, write disturbed by %s (%s) and then repeated undisturbed: %s for %s answers %s with the baseline present" % (
+                        history, _wf_plan_str(plan), opo, reader, etag, cls))
+    return None
+
+
+def _wfault_worker(chunk, st: Stats, scratch_root, pay, errnos, nslices):
+    scratch = os.path.join(scratch_root, "f%d" % os.getpid())
+    os.makedirs(scratch, exist_ok=True)
+    import logging
+    logging.disable(logging.CRITICAL)
+    import contextlib, io
+    os.environ["SOURCE_DATE_EPOCH"] = "1700000000"   # the sidecar's created_at must not read the wall clock
+    try:
+        for (i, j, history, sl) in chunk:
+            base, cur = pay[i], pay[j]
+
+            def emit(plan, opo, phase, reader, etag, cls, text, tree, _h=history, _b=base, _c=cur):
+                if plan is None:
+                    st.add("wfault_units_without_write_boundary")
+                    return
+                st.add("transitions")
+                st.add("validated")
+                st.add("wfault_cases")
+                if plan:
+                    st.add("nontrivial")
+                if tree is not None:
+                    st.distinct("states", ("wfault-dir", _h, sorted((n, b if not n.endswith(".meta") else len(b)) for n, b in tree.items())))
+                st.distinct("outcomes", ("wfault", _h, _wf_kind(plan), opo, phase, reader, cls))
+                v = _wf_judge(_h, plan, opo, phase, reader, etag, cls, text)
+                if v:
+                    st.violation(v[0], v[1], {"kind": "wfault", "base": _b, "cur": _c, "history": _h, "plan": plan, "errnos": errnos})
+            with contextlib.redirect_stderr(io.StringIO()):
+                res = wfault_unit(scratch, base, cur, history, errnos, lambda k, plan, _s=sl: k % nslices == _s, emit)
+            if isinstance(res, list):
+                for sig, what in res:
+                    st.violation(sig, what, {"kind": "file", "base": base, "cur": cur, "baseline": "present", "reader": READERS[0]})
+            else:
+                st.notes["wfault_max_plans_per_unit"] = max(st.notes.get("wfault_max_plans_per_unit", 0), res)
+        st.sample({"kind": "wfault", "base": pay[chunk[0][0]], "cur": pay[chunk[0][1]], "history": chunk[0][2],
+                   "plan": [{"at": 3, "kind": "kill-before"}], "errnos": errnos})
+    finally:
+        if _WF_ENG is not None:
+            _WF_ENG.end()
+        shutil.rmtree(scratch, ignore_errors=True)
+
+
 def run(run: Run) -> None:
     objs = universe(run.thorough)
     run.notes["universe_size"] = len(objs)
@@ -534,7 +828,14 @@ def run(run: Run) -> None:
                 "(c) damage: (base,cur) pairs of snapshot-shaped payloads x damaged file {baseline after the delta was written, "
                 "baseline before the delta-mode writer runs, delta, full used as fallback} x damage kind {high bit set, byte "
                 "zeroed, cut, byte dropped} x EVERY byte position of that file x reader; judged where the damaged bytes are "
-                "no longer a snapshot file (harness-side strict UTF-8 + JSON parse of both layouts): exact payload or absence" % len(objs))
+                "no longer a snapshot file (harness-side strict UTF-8 + JSON parse of both layouts): exact payload or absence; "
+                "(d) write faults: (base,cur) pairs of (c) (quick: the first two) x history {baseline written again under an existing delta, delta written / written "
+                "again, full written / written again as the fall-back of a delta whose baseline is gone} x one disturbance of the last "
+                "write of the history: process killed before EVERY numbered I/O call, every failable call failing (ENOSPC; thorough "
+                "also EIO, EACCES; fsync also losing the unsynced half), every raw write cut after EVERY byte count n followed by death, "
+                "or by ENOSPC on the next raw write; then every reader x every etag of the history, the same write repeated undisturbed, "
+                "every reader again: the payload written under that etag or absence, and no absence from read_snapshot after an "
+                "undisturbed / successfully repeated write with the baseline present" % len(objs))
     for o in objs:
         run.distinct("states", o)
     run.pmap(_pair_worker, list(range(len(objs))), extra=(objs,))
@@ -553,7 +854,22 @@ def run(run: Run) -> None:
     run.notes["damage_units"] = len(units)
     from mc.runner import NCPU
     run.pmap(_damage_worker, units, extra=(run.scratch, pay), chunks=len(units), procs=NCPU)
+    errnos = ["ENOSPC", "EIO", "EACCES"] if run.thorough else ["ENOSPC"]
+    nsl = 4
+    wpairs = pairs if run.thorough else pairs[:2]
+    wunits = [(i, j, h, sl) for (i, j) in wpairs for h in sorted(WF_HISTORIES) for sl in range(nsl)]
+    run.notes["wfault_pairs"] = len(wpairs)
+    run.notes["wfault_units"] = len(wunits) // nsl
+    run.pmap(_wfault_worker, wunits, extra=(run.scratch, pay, errnos, nsl), chunks=len(wunits), procs=NCPU)
+    if run.n.get("wfault_units_without_write_boundary"):
+        run.cap("write-fault leg: in %d unit slices the undisturbed write showed no raw write on the proxies (the writer reaches the "
+                "file system through a door mc.faults does not shadow): its byte positions were not disturbed" % run.n["wfault_units_without_write_boundary"])
     run.assume("zstandard is not installed in this image: codec dimension = {none}")
+    run.assume("write faults: one disturbance per write (plus the ENOSPC pair short write + failing next write), at the I/O calls the "
+               "snapshot module and the atomic writer make through their module globals os / open / tempfile / Path (mc.faults proxies); "
+               "a killed process is followed by readers and a repeated write in the same interpreter (module state survives, unlike a "
+               "real restart); file mtimes after the disturbance are fixed per role, left-overs of the disturbed write are the newest "
+               "entries; the retry repeats the same write with the same payload")
     run.assume("corrupt file = bytes that are no longer a snapshot file: the fixed menu garbage / empty / truncated for the baseline, and "
                "single-position damage (high bit set, byte zeroed, cut, byte dropped) at every position of baseline, delta or fallback "
                "full, judged only where strict UTF-8 decoding or JSON parsing of both file layouts fails in the harness's own parser; "
@@ -568,6 +884,23 @@ def replay(case):
         return check_pair(case["base"], case["cur"])
     d = tempfile.mkdtemp(prefix="c07r", dir="/dev/shm" if os.path.isdir("/dev/shm") else None)
     try:
+        if case["kind"] == "wfault":
+            found = []
+
+            def emit(plan, opo, phase, reader, etag, cls, text, tree):
+                if plan is None:
+                    return
+                v = _wf_judge(case["history"], plan, opo, phase, reader, etag, cls, text)
+                if v and v not in found:
+                    found.append(v)
+            os.environ["SOURCE_DATE_EPOCH"] = "1700000000"
+            try:
+                res = wfault_unit(d, case["base"], case["cur"], case["history"], case.get("errnos") or ["ENOSPC"],
+                                  lambda k, plan: plan == case["plan"], emit)
+            finally:
+                if _WF_ENG is not None:
+                    _WF_ENG.end()
+            return res if isinstance(res, list) else found
         if case["kind"] == "damage":
             found = []
             res = damage_unit(d, case["base"], case["cur"], case["target"], [case["damage"]], [case["pos"]], [case["reader"]],
